@@ -4,7 +4,9 @@ package c03
 import (
 	"encoding/json"
 	"fmt"
+	"runtime/debug"
 	"strings"
+	"time"
 
 	"verif/core"
 )
@@ -54,12 +56,21 @@ func run(r *core.Run) {
 	r.Assume("the host natives of the harness propagate errors the documented way (panic(err) for an error returned by a Callable / RunProgram); a native that swallows an uncatchable error is outside the property")
 	r.Assume("a generator or async function whose body was aborted by an uncatchable error is not resumed afterwards (ECMAScript does not define its state); the stateful shapes replace such a generator before its next use")
 	r.Assume("entry kinds under Runtime.Try (Object.Get, ToNumber, ForOf, an ExportTo'd func without error result) are followed by an empty RunProgram so that pending promise jobs run, as the next host call would do")
-	complete := regression(r)
-	complete = single(r) && complete
-	complete = histories(r) && complete
-	if r.Thorough() {
-		complete = pairs(r) && complete
+	debug.SetGCPercent(400) // thousands of short-lived runtimes: trade memory (small here) for fewer collections
+	secs := map[string]float64{}
+	timed := func(name string, f func(*core.Run) bool) bool {
+		t0 := time.Now()
+		ok := f(r)
+		secs[name] = float64(int(time.Since(t0).Seconds()*10)) / 10
+		return ok
 	}
+	complete := timed("regression", regression)
+	complete = timed("single", single) && complete
+	complete = timed("histories", histories) && complete
+	if r.Thorough() {
+		complete = timed("pairs", pairs) && complete
+	}
+	r.Set("part_seconds", secs)
 	r.Exhaustive(complete)
 }
 
